@@ -61,15 +61,26 @@ def _expected(line_pp: int) -> str:
     return "new\ncontent\n" if line_pp == 1 else NEW
 
 
-def step_template(exists: bool, mode: int, file_mode: int, allow_overwrite: bool, line_pp: int) -> bool:
+OLD0 = "OLD CONTENT THAT IS LONGER THAN THE NEW ONE\n"
+
+
+def _old(kind: int, line_pp: int) -> str:
+    """content an earlier run (or a checkout, an editor, another tool version) may have left at the output path: unrelated text; exactly what
+    this run is about to produce; the same lines with CRLF or lone-CR terminators (a shortcut that compares before writing must compare bytes)"""
+    e = _expected(line_pp)
+    return (OLD0, e, e.replace("\n", "\r\n"), e.replace("\n", "\r"))[kind]
+
+
+def step_template(exists: bool, mode: int, file_mode: int, allow_overwrite: bool, line_pp: int, old_kind: int) -> bool:
     """
-    pre: mode_ok(mode) and 0 <= file_mode <= 0o777 and 0 <= line_pp <= 2
+    pre: mode_ok(mode) and 0 <= file_mode <= 0o777 and 0 <= line_pp <= 2 and 0 <= old_kind <= 3
     post: _
     """
     fs = FakeFS()
     _CUR[0] = fs
+    OLD = _old(old_kind, line_pp)
     if exists:
-        fs.put("out/x.h", "OLD CONTENT THAT IS LONGER THAN THE NEW ONE\n", mode)
+        fs.put("out/x.h", OLD, mode)
     fs.put("out/foreign", "F", 0o400)
     g = object.__new__(DSDLCodeGenerator)
     g._env = _Env()
@@ -82,21 +93,22 @@ def step_template(exists: bool, mode: int, file_mode: int, allow_overwrite: bool
     foreign_ok = fs.files["out/foreign"] == ["F", 0o400]
     if exists and not allow_overwrite:
         # never changes content or mode of a file that existed before, and reports the conflict
-        return raised and fs.files["out/x.h"] == ["OLD CONTENT THAT IS LONGER THAN THE NEW ONE\n", mode] and foreign_ok
+        return raised and fs.files["out/x.h"] == [OLD, mode] and foreign_ok
     # byte-identical to a run into an empty directory, with the requested permission bits -- also over read-only files
     return (not raised) and fs.files["out/x.h"] == [_expected(line_pp), file_mode] and foreign_ok and len(fs.files) == 2
 
 
-def step_copy(exists: bool, mode: int, file_mode: int, allow_overwrite: bool, line_pp: int) -> bool:
+def step_copy(exists: bool, mode: int, file_mode: int, allow_overwrite: bool, line_pp: int, old_kind: int) -> bool:
     """
-    pre: mode_ok(mode) and 0 <= file_mode <= 0o777 and 0 <= line_pp <= 2
+    pre: mode_ok(mode) and 0 <= file_mode <= 0o777 and 0 <= line_pp <= 2 and 0 <= old_kind <= 3
     post: _
     """
     fs = FakeFS()
     _CUR[0] = fs
+    OLD = _old(old_kind, line_pp)
     fs.put("res/x.h", NEW, 0o444)          # packaged resources are typically read-only
     if exists:
-        fs.put("out/x.h", "OLD CONTENT THAT IS LONGER THAN THE NEW ONE\n", mode)
+        fs.put("out/x.h", OLD, mode)
     fs.put("out/foreign", "F", 0o400)
     g = object.__new__(SupportGenerator)
     pps = _pps(file_mode, line_pp)
@@ -109,11 +121,11 @@ def step_copy(exists: bool, mode: int, file_mode: int, allow_overwrite: bool, li
         raised = True
     untouched = fs.files["out/foreign"] == ["F", 0o400] and fs.files["res/x.h"] == [NEW, 0o444]
     if exists and not allow_overwrite:
-        return raised and fs.files["out/x.h"] == ["OLD CONTENT THAT IS LONGER THAN THE NEW ONE\n", mode] and untouched
+        return raised and fs.files["out/x.h"] == [OLD, mode] and untouched
     return (not raised) and fs.files["out/x.h"] == [_expected(line_pp), file_mode] and untouched and len(fs.files) == 3
 
 
-def two_runs(mode1: int, mode2: int, allow2: bool) -> bool:
+def two_runs(mode1: int, mode2: int, allow2: bool, same_text: bool) -> bool:
     """
     pre: 0 <= mode1 <= 0o777 and 0 <= mode2 <= 0o777
     pre: FULL or ((mode1 & 0o077) in (0, 0o44) and (mode2 & 0o077) in (0, 0o44))
@@ -131,10 +143,10 @@ def two_runs(mode1: int, mode2: int, allow2: bool) -> bool:
         return False
     g._post_processors = _pps(mode2, 0)
     try:
-        g._generate_code(FakePath(fs, "out/x.h"), None, iter(["v2\n"]), allow2)
+        g._generate_code(FakePath(fs, "out/x.h"), None, iter(["v1\n" if same_text else "v2\n"]), allow2)
         raised = False
     except PermissionError:
         raised = True
     if allow2:
-        return (not raised) and fs.files["out/x.h"] == ["v2\n", mode2]
+        return (not raised) and fs.files["out/x.h"] == ["v1\n" if same_text else "v2\n", mode2]
     return raised and fs.files["out/x.h"] == ["v1\n", mode1]
